@@ -9,14 +9,19 @@ HARNESS = "sem"
 CLAIM = dict(
     text=("Theorems (coq/props/C18.v): physical line starts (CR, LF, CRLF, LFCR) are strictly increasing and FindLineIdx returns the line "
           "containing the cursor, for every source and cursor; every statement starts with the running frame's line set to its own line and "
-          "callers keep the line of their pending call; for every fuel, state and expression a returned call leaves no frame, a failed call "
+          "callers keep the line of their pending call; an expression that fails leaves the frame that evaluated it untouched — its line included "
+          "— under the frames of the calls in progress, so that an expression statement, 输出, a declaration and a 每当 condition (first "
+          "and every later pass) are reported at their own line; for every fuel, state and expression a returned call leaves no frame, a failed call "
           "leaves exactly its own frame above what its callees left, and a handled exception drops them (eval_expr_balanced), so the chain "
           "walked by the error display is the chain of active calls. Tie: (a) generated sources with multi-line texts and comments, CRLF/CR/LF "
           "line ends, wide characters and a syntax fault planted at a generator-known line and column: error cursor, reported line, quoted "
           "source line and caret column against the specification evaluated in Coq, and the lexer's recorded line starts against "
           "phys_starts; (b) generated programs ending in runtime faults at any call depth, after handled exceptions, with comments and "
           "multi-line texts shifting the lines: module/call type/line of every frame of the chain against the model, and the line numbers "
-          "printed by DisplayError against that chain."),
+          "printed by DisplayError against that chain; (c) programs with one fault planted at a place known by construction (declaration, "
+          "assignment, expression statement, 如果 / 每当 condition on the first and on later passes, 遍历 target, arguments, 输出; nested in "
+          "blocks, methods, object methods and constructors): reported lines and quoted texts must be those of the faulting statement and "
+          "of the calls leading to it — the expectation comes from the construction, not from the model."),
     note=semprop.TB + ("the lexer's line bookkeeping inside texts and comments is tied by the per-run comparison with phys_starts, not proved; "
                        "one module only for the chain (module names of imported methods are C15's subject); East-Asian display widths are "
                        "checked for ASCII, CJK ideographs and full-width punctuation."),
